@@ -145,6 +145,9 @@ def get_type_graph(t: type) -> graphlib.TopologicalSorter[TypeNode]:
                 if module in (None, "__main__") and rest:
                     module = rest[0]
                 is_class = inspect.isclass(child)
+                if is_class and rest:
+                    # A nested class: the dotted prefix names the enclosing class, not a module.
+                    refname, module = qualname, child.__module__
                 ref = refs.forwardref(
                     refname, is_argument=is_argument, module=module, is_class=is_class
                 )
